@@ -14,12 +14,31 @@ def sh(cmd, cwd=None, timeout=1800):
 def clean():
     sh("git checkout -- . && git clean -fdq", wt)
 clean()
-demo = open(f"{src}/demo_test.go", errors="replace").read()
+moddemo = None
+for cand in (f"{src}/demo", src):
+    if not os.path.exists(f"{src}/demo_test.go") and os.path.exists(f"{cand}/main.go") and os.path.exists(f"{cand}/go.mod"):
+        moddemo = cand
+if moddemo:
+    demo = "package main\n"
+else:
+    demo = open(f"{src}/demo_test.go", errors="replace").read()
 pkg = re.search(r"^package (\w+)", demo, re.M).group(1)
 pkgdir = {"plenc_test": ".", "plenc": ".", "plenccodec_test": "plenccodec", "plenccodec": "plenccodec", "null": "null", "null_test": "null", "plenccore": "plenccore", "plenccore_test": "plenccore", "main": "cmd/plenctag", "main_test": "cmd/plenctag"}[pkg]
 tests = "|".join(re.findall(r"^func (Test\w+)", demo, re.M))
 res = {}
 def rundemo():
+    if moddemo:
+        # a stand-alone program with its own go.mod: point its replace at the worktree and run it
+        d = f"/tmp/seeddemo-{prop}-{m}"
+        sh(f"rm -rf {d} && cp -r {moddemo} {d}")
+        gm = open(f"{d}/go.mod").read()
+        gm = re.sub(r"(github.com/philpearl/plenc\s*=>\s*)\S+", r"\g<1>" + wt, gm)
+        open(f"{d}/go.mod", "w").write(gm)
+        if not os.path.exists(f"{d}/go.sum"):
+            shutil.copy(f"{wt}/go.sum", f"{d}/go.sum")
+        r = sh("go run .", d, timeout=300)
+        sh(f"rm -rf {d}")
+        return r.returncode == 0
     shutil.copy(f"{src}/demo_test.go", f"{wt}/{pkgdir}/zz_seed_demo_test.go")
     r = sh(f"go test -vet=off -count=1 -run '^({tests})$' ./{pkgdir}/", wt, timeout=300)
     os.remove(f"{wt}/{pkgdir}/zz_seed_demo_test.go")
@@ -63,7 +82,11 @@ finally:
 res["checks"] = det
 out = f"/verif/seeded/{prop}-{m}"
 os.makedirs(out, exist_ok=True)
-shutil.copy(f"{src}/patch.diff", out); shutil.copy(f"{src}/demo_test.go", out)
+shutil.copy(f"{src}/patch.diff", out)
+if moddemo:
+    sh(f"cp -r {moddemo} {out}/demo_module")
+else:
+    shutil.copy(f"{src}/demo_test.go", out)
 meta = {"property": prop, "demo_package_dir": pkgdir, "needs_to_manifest": open(f"{src}/meta.txt", errors="replace").read()[:3000],
         "confirmed": {k: res[k] for k in res if k != "checks"}, "detected_by": {c: d["violations"] > 0 for c, d in det.items()}, "checks": det,
         "what_was_run": f"in scratch worktree {wt}: demo without change; git apply; go build ./...; go test -vet=off -count=1 ./... (TestDescriptor is flaky on the pinned tree too: up to 3 tries); demo with change; then ./check <id> --tier quick for {checks} with VERIF_REPO = a scratch copy of /repo carrying the patch"}
